@@ -106,6 +106,9 @@ def scenario_counts(c, dist):
         dist["repeated-measurements:" + R["how"]] += 1
     if c.get("signs"):
         dist["parameter-branch:{}:{}".format(c["model"], c["signs"])] += 1
+    if c.get("parnames"):
+        dist["parnames-keyword:" + ("not-in-alphabetical-order" if sorted(c["parnames"]) != list(
+            c["parnames"]) else "alphabetical")] += 1
     if c["model"].startswith("custom:"):
         dist["user-callable:" + G.callable_tag(c)] += 1
         if c["model"] in G.POLY_LIKE:
